@@ -1,5 +1,21 @@
 import Pyx12Verif.Props.C12
+import Pyx12Verif.Props.DocDelimSubExample3
 open Pyx12Verif.C12
 #print axioms reencode_invariant
 #print axioms read_encoded
 #print axioms reencode_invariant_reader
+#print axioms Pyx12Verif.Doc.stepSeg_rename
+#print axioms Pyx12Verif.Doc.runSegs_rename
+#print axioms Pyx12Verif.Doc.validateRead_rename
+#print axioms Pyx12Verif.Doc.validateDoc_rename
+#print axioms Pyx12Verif.Doc.doc_delimiter_independent_sub
+#print axioms Pyx12Verif.Doc.doc_delimiter_independent_sub_views
+#print axioms Pyx12Verif.Doc.ack_eq_of_fixed
+#print axioms Pyx12Verif.Doc.errorEvents_mapComp
+#print axioms Pyx12Verif.Doc.sepNeutral_of_prime
+#print axioms Pyx12Verif.Envelope.pyInt_neutral_char
+#print axioms Pyx12Verif.ErrTree.run_ren
+#print axioms Pyx12Verif.Envelope.step_ren
+#print axioms Pyx12Verif.Doc.Ex.doc_delimiter_independent_sub_full_counterexample
+#print axioms Pyx12Verif.Doc.Ex.witness_sub
+#print axioms Pyx12Verif.Doc.Ex.doc_delimiter_independent_sub_noint_counterexample
